@@ -331,6 +331,19 @@ func (fc *FuncCtx) callWith(c *ast.CallExpr, st *State, recv *Value, args []*Val
 		e.note("dropped call " + shortPkg(pp) + "." + key + " (arguments evaluated for safety)")
 		return freshResults()
 	}
+	if e.opaque[full] {
+		// pure accessor of a client/lister handle: result is an opaque non-nil value
+		res := freshResults()
+		for _, r := range res {
+			switch r.Sh.Kind {
+			case KIface:
+				st.assume(not(eq(r.L[0], "0")))
+			case KRef, KMapRef:
+				st.assume(not(eq(r.T(), "0")))
+			}
+		}
+		return res
+	}
 	// special forms
 	if isSpecialCall(full) {
 		cs := fc.callOrd[c]
@@ -424,7 +437,12 @@ func (fc *FuncCtx) applyContract(c *ast.CallExpr, st *State, ct *Contract, fn *t
 	}
 	fc.runGhostAt(st, "call", cs.callee, cs.n, "before", c.Pos())
 	mkEnv := func(s, old *State, nm map[string]*Value) *SpecEnv {
-		return &SpecEnv{e: e, st: s, old: old, names: nm, cf: ct.CF, pkg: cpkg}
+		env := &SpecEnv{e: e, st: s, old: old, names: nm, cf: ct.CF, pkg: cpkg}
+		if strings.Contains(ct.Key, "@") {
+			// caller-specific contract: the caller's variables are visible (parameter names win)
+			env.goLookup = fc.specEnv(s, old, c.Pos(), nil).goLookup
+		}
+		return env
 	}
 	// preconditions
 	for i, r := range ct.Requires {
@@ -697,13 +715,61 @@ func (fc *FuncCtx) specialCall(c *ast.CallExpr, st *State, full string, recv *Va
 		return []*Value{scalar(shStr, e.fresh("sprint", "Str"))}, true
 	case "sort:Sort", "sort:Stable":
 		return fc.sortCall(c, st, full), true
+	case "k8s.io/client-go/util/retry:RetryOnConflict":
+		return fc.retryCall(c, st), true
 	}
 	return nil, false
 }
 
+// retryCall models retry.RetryOnConflict(backoff, func() error {...}): the closure runs one or
+// more times; after each run the loop may stop with the error it returned or run it again.
+// It is verified like a loop whose body is the closure (invariants under its loop ordinal).
+func (fc *FuncCtx) retryCall(c *ast.CallExpr, st *State) []*Value {
+	e := fc.e
+	lit, ok := ast.Unparen(c.Args[1]).(*ast.FuncLit)
+	if !ok {
+		fc.unsupp(c, "RetryOnConflict with a non-literal function")
+	}
+	fc.eval(c.Args[0], st)
+	ord := fc.loopOrd[lit]
+	name := fmt.Sprintf("$retry%d", ord)
+	st.ghost[name] = scalar(shErr, "0")
+	ranName := fmt.Sprintf("$ran%d", ord)
+	st.ghost[ranName] = scalar(shBool, "false")
+	iter := func(h *State) ([]*State, []*State) {
+		cf := &closureFrame{lit: lit, name: name}
+		fc.closures = append(fc.closures, cf)
+		savedFrames := fc.frames
+		fc.frames = nil
+		end := fc.execBlock(lit.Body, h)
+		fc.frames = savedFrames
+		fc.closures = fc.closures[:len(fc.closures)-1]
+		if end != nil {
+			fc.unsupp(lit, "closure body falls off the end")
+		}
+		var back, exit []*State
+		for _, r := range cf.rets {
+			r.ghost[ranName] = scalar(shBool, "true")
+			back = append(back, r.clone())
+			exit = append(exit, r)
+		}
+		return back, exit
+	}
+	out := fc.runLoop(lit, st, func(h *State) []string { return nil }, func(h *State) map[string]*Value { return nil }, iter)
+	if out == nil {
+		fc.unsupp(c, "RetryOnConflict never returns")
+	}
+	*st = *out
+	res := st.ghost[name]
+	delete(st.ghost, name)
+	delete(st.ghost, ranName)
+	e.assumed["retry.RetryOnConflict: runs the function one or more times and returns the error of the last run"] = true
+	return []*Value{res}
+}
+
 func isSpecialCall(full string) bool {
 	switch full {
-	case "fmt:Sprintf", "fmt:Errorf", "errors:New", "fmt:Sprint", "sort:Sort", "sort:Stable":
+	case "fmt:Sprintf", "fmt:Errorf", "errors:New", "fmt:Sprint", "sort:Sort", "sort:Stable", "k8s.io/client-go/util/retry:RetryOnConflict":
 		return true
 	}
 	return false
@@ -842,6 +908,7 @@ func (fc *FuncCtx) modifiedBy(st *State, run func(h *State) ([]*State, []*State)
 		all := append(append([]*State{}, back...), exit...)
 		return e.diffStates(base, all)
 	}
+	mark0 := e.nfresh
 	d1 := collect(st.clone())
 	// second run from a state in which everything found so far is unknown
 	h := st.clone()
@@ -871,6 +938,15 @@ func (fc *FuncCtx) modifiedBy(st *State, run func(h *State) ([]*State, []*State)
 		if _, ok := d2.heap[k]; !ok {
 			d2.heap[k] = m
 			m["*"] = true
+			continue
+		}
+		// targets of the first iteration are terms over the pre-loop state: loop-invariant locations
+		for r := range m {
+			if r == "*" || r == "~fresh" || !mentionsFreshAfter(r, mark0) {
+				d2.heap[k][r] = true
+			} else {
+				d2.heap[k]["~fresh"] = true
+			}
 		}
 	}
 	// targets that mention symbols created after the mark are not loop-invariant:
@@ -1006,6 +1082,8 @@ func (fc *FuncCtx) runLoop(node ast.Node, st *State, implicit func(h *State) []s
 		bodyPos = x.Body.Lbrace + 1
 	case *ast.RangeStmt:
 		bodyPos = x.Body.Lbrace + 1
+	case *ast.FuncLit:
+		bodyPos = x.Body.Lbrace + 1
 	}
 	d := fc.modifiedBy(st, iter)
 	checkInvs := func(s *State, kind string) {
@@ -1025,7 +1103,7 @@ func (fc *FuncCtx) runLoop(node ast.Node, st *State, implicit func(h *State) []s
 	checkInvs(st, "inv-entry")
 	h := st.clone()
 	fc.havocDiff(h, d, false)
-	guard := &loopGuard{ord: ord, allocHead: h.alloc, keys: map[string]map[string]bool{}, pos: pos}
+	guard := &loopGuard{ord: ord, allocHead: st.alloc, keys: map[string]map[string]bool{}, pos: pos}
 	for k, targets := range d.heap {
 		if targets["~fresh"] && !targets["*"] {
 			guard.keys[k] = targets
@@ -1267,8 +1345,14 @@ func (fc *FuncCtx) storeHook(st *State, key, ref string) {
 		if !ok || targets[ref] {
 			continue
 		}
-		goal := or("(>= "+ref+" "+g.allocHead+")", eq(ref, "0"))
+		alts := []string{"(>= " + ref + " " + g.allocHead + ")", eq(ref, "0")}
+		for _, t := range sortedStrings(targets) {
+			if t != "~fresh" && t != "*" {
+				alts = append(alts, eq(ref, t))
+			}
+		}
+		goal := or(alts...)
 		fc.oblige(st, "loop-frame", fmt.Sprintf("loop%d:%s", g.ord, key), g.pos, goal, nil,
-			"a store to "+key+" inside the loop must target an object allocated by the current iteration (or a loop-invariant location)")
+			"a store to "+key+" inside the loop must target an object allocated since the loop was entered (or a loop-invariant location)")
 	}
 }
